@@ -259,6 +259,20 @@ void vp_c14_move(int x, vp_obs& o)
   try { b.g(); }               // beyond the upper bound: must be reported against the moved saturated expectation
   catch (...) { o.extra = 1; }
 }
+// C15/C01: a call rejected because a parameter value does not fit: the no-match report with the actual arguments and the
+// expected values of the listed expectation
+struct vp_M2 {
+  MAKE_MOCK2(p, void(int, int));
+};
+void vp_c15_param_mismatch(int x, int y, vp_obs& o)
+{
+  vp_M2 m;
+  o.extra = 0;
+  REQUIRE_CALL(m, p(5, trompeloeil::_)).LR_SIDE_EFFECT(o.extra = 1);
+  try { m.p(x, y); o.ret = 1; }
+  catch (...) { o.ret = 0; m.p(5, y); }     // rejected; the expectation is then satisfied by a fitting call
+  o.x = x; o.y = y;
+}
 void vp_build_objects()
 {
   vp_M m; trompeloeil::sequence s;
